@@ -7,7 +7,7 @@ import conc
 import driver
 
 PROPERTIES_FILE = "Properties/Properties_C01_root.v"
-COQ_DEPS = ["Proofs/RootQ_proofs.vo", "Extract/Extract_rootq.vo"]
+COQ_DEPS = ["Proofs/RootQ_wake_proofs.vo", "Extract/Extract_rootq.vo"]
 GEN_MODULES = ["Gen_rootq"]
 LEVEL = "proof"
 TRUSTED = [
@@ -50,6 +50,8 @@ def run_harness(mode, seed, permille, oc, size=0, idle=0, timeout=240):
     if exe is None:
         raise RuntimeError("harness build failed: " + msg)
     r = common.run([exe, mode, str(seed), str(permille), str(oc), str(size), str(idle)], timeout=timeout)
+    if r.returncode == 124:
+        return "S hang\n"
     if r.returncode != 0:
         raise RuntimeError("harness failed rc=%s: %s" % (r.returncode, (r.stderr or "")[-1500:]))
     return r.stdout
@@ -66,6 +68,7 @@ class Run:
         self.label = label
         other, per = conc.parse_dump(text)
         self.q = self.n = self.b = None
+        self.late = 0
         self.bad_items = []
         for l in other:
             f = l.split()
@@ -77,6 +80,8 @@ class Run:
                 self.n = (int(f[1]), int(f[2]))
             elif f[0] == "B":
                 self.b = [int(float(x)) for x in f[1:]]
+            elif f[0] == "L":
+                self.late = int(f[1])
         (self.ncpu, self.oc, self.off_tail, self.off_pool, self.off_head, self.off_pend, self.off_next, self.off_sema,
          self.qsize, self.pool0) = self.q
         # items = every value exchanged into the tail
@@ -254,11 +259,16 @@ def thread_stats(kind, evs, run, st):
 
 
 def analyse(text, label, st):
+    if text.startswith("S "):
+        what = ("one item submitted with dispatch_async_f to an idle global queue was not invoked within 10 s" if "warmup" in text
+                else "the stress client did not terminate within its time limit (items stranded on a global queue)")
+        return None, [{"key": "%s:stranded-%s" % (label, text.split()[1]), "what": what, "label": label}], [], []
     run = Run(text, label)
     mism = []
     if [run.off_tail, run.off_pool, run.off_head, run.off_pend, run.off_next, run.off_sema] != OFFSETS:
         mism.append({"what": "structure offsets of the running library differ from Gen_rootq", "detail": {"harness": run.q, "gen": OFFSETS}})
     fails, ost = api_oracle(run)
+    ost["runs_that_exhausted_their_time_budget"] = run.late
     for k, v in ost.items():
         st[k] = st.get(k, 0) + v
     traces = []
@@ -307,6 +317,103 @@ def ocaml_conform(traces):
     return out
 
 
+def run_stall(ctx, st):
+    exe, msg = common.build_harness("c01_root_stall", ["c01_root_stall.c"], whitebox=True, extra=["-I" + common.VERIF + "/harness"])
+    if exe is None:
+        raise RuntimeError("harness build failed: " + msg)
+    r = common.run([exe, "2500"], timeout=120)
+    if r.returncode != 0:
+        raise RuntimeError("stall harness failed rc=%s: %s" % (r.returncode, (r.stderr or "")[-800:]))
+    line = [l for l in r.stdout.split("\n") if l.startswith("STALL")]
+    if not line or "skipped" in line[0]:
+        st["stall_witness_skipped"] = 1
+        return None
+    kv = dict(x.split("=") for x in line[0].split()[1:])
+    st["stall_witness_runs"] = 1
+    st["stall_item_waited_for_monitor_ms"] = int(float(kv["held_ms"]))
+    mism = []
+    model = {"pool_size_during": 1, "pending_during": 0, "sem_value_during": 2, "ran_while_monitor_held": 0, "creator_is_manager": 1,
+             "ran_finally": 1}
+    got = {k: int(kv[k]) for k in model}
+    if int(kv["monitor_seen"]) and got != model:
+        mism.append({"what": "the schedule RootQ.stall_schedule forced on the library does not end in the model's stall_state "
+                     "(pool size 1, nothing pending, two banked signals, item not run until the monitor pokes)",
+                     "detail": {"model": model, "library": got}})
+    label = "stall:0:0:0:0:0"
+    run, f, m, tr = analyse(r.stdout, label, st)
+    # second forced schedule: the signal arrives between the worker's timeout and its undo
+    r2 = common.run([exe, "0", "1"], timeout=120)
+    l2 = [l for l in r2.stdout.split("\n") if l.startswith("DRAINWAKE")]
+    if r2.returncode == 0 and l2 and "skipped" not in l2[0]:
+        st["drainwake_runs"] = 1
+        if "ran=1" not in l2[0]:
+            mism.append({"what": "a worker that timed out on the pool semaphore while a signal arrived did not run the item", "detail": l2[0]})
+        run2, f2, m2, tr2 = analyse(r2.stdout, "drainwake:0:0:0:0:0", st)
+        m += m2
+        tr += tr2
+    return run, mism + m, tr
+
+
+def check_monitor(ctx, st):
+    """differential run of the monitor's decision (real _dispatch_workq_monitor_pools reading /proc for real threads, pokes
+    intercepted) against RootQ.mon_pass evaluated inside Coq"""
+    exe, msg = common.build_harness("c01_root_mon", ["c01_root_mon.c"], whitebox=True, exclude_objs=("workqueue.c.o",),
+                                    extra=["-I" + common.VERIF + "/harness", "-Wl,--wrap=_dispatch_root_queue_poke"])
+    if exe is None:
+        raise RuntimeError("harness build failed: " + msg)
+    ncases = 150 if ctx.tier == "quick" else 600
+    r = common.run([exe, str(ctx.seed * 77 + 5), str(ncases)], timeout=120)
+    if r.returncode != 0:
+        raise RuntimeError("monitor harness failed rc=%s: %s" % (r.returncode, (r.stderr or "")[-800:]))
+    cases, ncpu, nb = [], None, None
+    for l in r.stdout.split("\n"):
+        f = l.split()
+        if not f:
+            continue
+        if f[0] == "H":
+            ncpu, nb, maxt = int(f[1]), int(f[2]), int(f[3])
+        elif f[0] == "M":
+            parts = l[2:].split("|")
+            target = int(parts[0])
+            b = [int(x) for x in parts[1].split()]
+            buckets = [(b[3 * i], b[3 * i + 1], b[3 * i + 2]) for i in range(nb)]
+            pokes = [tuple(int(x) for x in p.split(":")) for p in parts[2].split()]
+            cases.append((target, buckets, pokes))
+    mism = []
+    if maxt != 255 or ncpu is None:
+        mism.append({"what": "WORKQ_MAX_TRACKED_TIDS of the library differs from the model's", "detail": maxt})
+    body = ["Definition cases : list (Z * list (bool * Z)) := ["]
+    body.append(";\n".join("(%d, [%s])" % (t, "; ".join("(%s, %d)" % ("true" if pr else "false", nr) for (pr, nr, ns) in reversed(bk)))
+                           for (t, bk, _) in cases))
+    body.append("].")
+    body.append("Eval vm_compute in map (fun '(t, bs) => flat_map (fun o => match o with None => [0; 0] | Some f => [1; f] end) "
+                "(mon_pass t (WORKQ_OVERSUBSCRIBE_FACTOR * %d) 0 bs)) cases." % ncpu)
+    ok, vals, raw = driver.coq_eval("c01root_mon", IMPORTS, "\n".join(body) + "\n")
+    if not ok or len(vals) != 1:
+        raise RuntimeError("coq evaluation of mon_pass failed: " + raw[-1500:])
+    xs = driver.ints(vals[0])
+    if len(xs) != 2 * nb * len(cases):
+        raise RuntimeError("unexpected size of the model's answer: %d" % len(xs))
+    kinds = {}
+    for ci, (t, bk, pokes) in enumerate(cases):
+        exp = []
+        for j in range(nb):
+            flag, fl = xs[2 * nb * ci + 2 * j], xs[2 * nb * ci + 2 * j + 1]
+            bucket = nb - 1 - j
+            if flag:
+                exp.append((bucket, 1, fl))
+                kind = "hard_floor" if fl == t - 255 else "oversubscribe_floor"
+                kinds[kind] = kinds.get(kind, 0) + 1
+            else:
+                kinds["no_poke" if bk[bucket][0] else "empty_queue"] = kinds.get("no_poke" if bk[bucket][0] else "empty_queue", 0) + 1
+        if exp != pokes:
+            mism.append({"what": "_dispatch_workq_monitor_pools and RootQ.mon_pass decide differently",
+                         "detail": {"target": t, "ncpu": ncpu, "buckets(probe,runnable,blocked)": bk, "library_pokes": pokes, "model_pokes": exp}})
+    for k, v in kinds.items():
+        st["monitor_decision_" + k] = v
+    return mism, len(cases)
+
+
 def gen_offsets():
     txt = open(os.path.join(common.gen_dir(), "Gen_rootq.v")).read()
     import re
@@ -348,12 +455,23 @@ def correspond(ctx):
         fails += f
         mism += m
         alltr += tr
+        if run is None:
+            break      # the library does not even run a single item: the remaining runs would only hang
         if run.b is not None:
             blocked.append({"label": label, "waiters": run.b[0], "pool_before": run.b[1], "pool_min": run.b[2],
                             "worker_threads": run.b[3], "elapsed_ms": run.b[4], "finished": run.b[5]})
             if run.b[5] and not oc and run.b[2] >= 0:
                 mism.append({"what": "blocked-pool run finished without the pool growing beyond its nominal size: the scenario was "
                              "not exercised", "detail": blocked[-1]})
+    # the lost wake-up predicted by the model (RootQ.stall_schedule / C01_root_stall_needs_monitor), forced on the real
+    # library by holding threads inside the hook: the library must end in the model's stall_state
+    stall = run_stall(ctx, st)
+    if stall is not None:
+        srun, sm, str_ = stall
+        mism += sm
+        alltr += str_
+    mon_mism, mon_n = check_monitor(ctx, st)
+    mism += mon_mism
     res = ocaml_conform([(sv, t) for (sv, t, _, _, _) in alltr])
     # the same function evaluated inside Coq on a sample (shortest traces of every kind first), compared with the extracted run
     order = sorted(range(len(alltr)), key=lambda i: len(alltr[i][1]))
@@ -388,7 +506,7 @@ def correspond(ctx):
                 samples.append({"kind": kind, "label": label, "trace": [e.brief() for e in t[:40]]})
                 break
     samples += blocked
-    return {"evaluations": len(alltr), "distinct_nontrivial": distinct,
+    return {"evaluations": len(alltr) + mon_n, "distinct_nontrivial": distinct,
             "rule": "harness c01_root on one global queue (QoS utility; overcommit variant too): floods of dispatch_async_f from 2..8 "
                     "threads with nested pushes from inside callouts, ping-pong of single items (empty<->non-empty flips), an idle "
                     "phase > 5 s (workers time out, return their slot, exit, are re-created), and the blocked-pool scenario "
